@@ -107,6 +107,10 @@ var resetCmd = &cobra.Command{
 		if err != nil {
 			return fmt.Errorf("fail to get log record: %w", err)
 		}
+		if logRecord.Hash == nil {
+			// e.g. the zero-id half of a branch rename record
+			return fmt.Errorf("fatal: %s does not name a commit", args[0])
+		}
 
 		// reset HEAD
 		if isSoft || isMixed || isHard {
